@@ -244,7 +244,7 @@ func TestPropVocabulary(t *testing.T) {
 func TestPropGuessEnumerate(t *testing.T) {
 	registerAll()
 	alpha := []string{`"`, "a", ".", "1", "0", "-", "e", "E", "+", "true", "false", "null", "{", "[", " ", `\"`, "5"}
-	maxLen := ev.N(4, 6)
+	maxLen := ev.N(4, 7)
 	ev.KeepFirst("guess")
 	var n, nt, bad int64
 	gen.Shortlex(alpha, maxLen, ev.Mine, func(b []byte, _ []int) {
